@@ -8,6 +8,8 @@ import (
 	"os"
 
 	"github.com/relex/gotils/logger"
+	"github.com/relex/slog-agent/zz_verif/fakes"
+	"github.com/relex/slog-agent/zz_verif/fsmodel"
 	"github.com/relex/slog-agent/zz_verif/sym"
 )
 
@@ -86,3 +88,40 @@ func VerifC06_QueueDirPerId() {
 //verif:stub github.com/relex/slog-agent/util.MD5ToHexdigest verifStubMD5
 //verif:reach distinct equal
 func VerifC03_QueuesDoNotShareFiles() { VerifC06_QueueDirPerId() }
+
+func verifStubReadFile(name string) ([]byte, error) {
+	s, ok := verifFiles[name]
+	if !ok {
+		return nil, os.ErrNotExist
+	}
+	return []byte(s), nil
+}
+
+// VerifC06_QueueIdRoundTrip: the id written next to a queue (makeBufferQueueDir)
+// is the id found at the next start (listBufferQueueIDs), byte for byte, for
+// every id of 1..3 arbitrary bytes (edge whitespace, separators, control bytes
+// included): otherwise the queued chunks are re-attached to another key tuple.
+// The directory tree is the harness recorder (MkdirAll/WriteFile/ReadFile) plus
+// the flat file-system model holding the one directory entry with a chunk in it.
+//
+//verif:native off
+//verif:stub os.MkdirAll verifStubMkdirAll
+//verif:stub os.WriteFile verifStubWriteFile
+//verif:stub os.ReadFile verifStubReadFile
+//verif:stub github.com/relex/slog-agent/util.MD5ToHexdigest verifStubMD5
+//verif:reach done
+func VerifC06_QueueIdRoundTrip() {
+	verifMkdirs, verifFiles = nil, map[string]string{}
+	fs := fsmodel.Reset()
+	n := sym.Choice("idLen", 3) + 1
+	id := sym.String("id", n, n)
+	dir := makeBufferQueueDir(logger.Root(), "/q", id)
+	// the root directory lists that one entry; the queue directory (same flat model) lists one chunk
+	fs.Files[dir[len("/q/"):]] = []byte("chunk")
+	ids := listBufferQueueIDs(logger.Root(), "/q", func(string) bool { return true }, fakes.NewMetrics())
+	sym.Assert(len(ids) == 1, "the queue directory that holds chunks is found at the next start")
+	if len(ids) == 1 {
+		sym.Assert(ids[0] == id, "the recovered queue id is the id that produced the queue, byte for byte")
+	}
+	sym.Reach("done")
+}
